@@ -47,6 +47,11 @@ def run(cs, counters, script=None):
                 op['udf_path'] = '/' + h.gen.udf_name()
             h.apply(op)
     h.extend(rng.choice([8, 20, 35]))
+    if cs % 5 == 1:
+        # copies of the PVD have to stay in agreement after the in-place rewrite
+        for _k in range(1 + cs % 2):
+            h.apply({'op': 'duplicate_pvd'})
+        counters['duplicate_pvd_images'] = counters.get('duplicate_pvd_images', 0) + 1
     img, oc = h.sess.write()
     if not oc.ok:
         h.sess.close()
@@ -56,6 +61,9 @@ def run(cs, counters, script=None):
     model.reopened()
     h.sess.close()
     backing = io.BytesIO(data0)
+    if cs % 3 != 0:
+        # the image is modified later than it was mastered
+        env.CLOCK.advance(3600 * (1 + cs % 50) + 11)
     import pycdlib
     iso = pycdlib.PyCdlib()
     try:
